@@ -2,6 +2,7 @@
 """tools/mutants_summary.py <run_mutants log>  -> /tmp/mut_all.json {CID: {caught, total, missed: [...]}} and a printed summary."""
 import json, sys, collections
 res = collections.defaultdict(lambda: {'caught': 0, 'total': 0, 'missed': []})
+last = {}
 for line in open(sys.argv[1]):
     line = line.strip()
     if not line.startswith('{'):
@@ -10,12 +11,14 @@ for line in open(sys.argv[1]):
         r = json.loads(line)
     except Exception:
         continue
-    c = res[r['cid']]
+    last[(r['cid'], r.get('diff'))] = r       # the latest result of each mutant counts
+for (cid, diff), r in last.items():
+    c = res[cid]
     c['total'] += 1
     if r.get('status') == 'caught':
         c['caught'] += 1
     else:
-        c['missed'].append((r.get('diff'), r.get('status')))
+        c['missed'].append((diff, r.get('status')))
 json.dump(res, open('/tmp/mut_all.json', 'w'), indent=1)
 for k in sorted(res):
     print(k, f"{res[k]['caught']}/{res[k]['total']}", res[k]['missed'] or '')
